@@ -23,12 +23,12 @@ PROPS = {
     'C11': dict(mc=[('MC_Router', None)], world=['random']),
     'C12': dict(mc=[('MC_Pool', None), ('MC_Math', ['reverse'])], math=['reverse'], world=['random']),
     'C13': dict(mc=[('MC_Router', None)], world=['random']),
-    'C14': dict(mc=[('MC_Pool', None)], world=['matrix', 'random']),
+    'C14': dict(mc=[('MC_Pool', None), ('MC_Factory', None)], world=['matrix', 'random']),
     'C15': dict(mc=[('MC_Pool', None), ('MC_Math', ['slip'])], math=['slip'], world=['random']),
-    'C16': dict(mc=[], world=['registry', 'matrix']),
-    'C17': dict(mc=[], world=['registry']),
+    'C16': dict(mc=[('MC_Factory', None)], world=['registry', 'matrix']),
+    'C17': dict(mc=[('MC_Factory', None)], world=['registry']),
     'C18': dict(mc=[], math=['text'], level='exploration'),
-    'C19': dict(mc=[], world=['registry']),
+    'C19': dict(mc=[('MC_Factory', None)], world=['registry']),
     'C20': dict(mc=[('MC_Pool', None)], world=['withdraw', 'random']),
 }
 
@@ -67,7 +67,7 @@ def mc_pool_cfg(kind, tier):
     c += '  KIND = "%s"\n' % kind
     c += '  AMTS = %s\n' % ('{0, 1, 2, 3, 5}' if tier == 'thorough' else '{0, 1, 2, 3}')
     c += '  MAXSTEPS = %d\n' % (4 if tier == 'thorough' else 3)
-    c += '  COMMISSION = 1\n  FULL = TRUE\n  KeyBytes <- MCKeyBytes\n  AddrOfIndex <- MCAddrOfIndex\n'
+    c += '  COMMISSION = 1\n  FULL = TRUE\n  KeyBytes <- MCKeyBytes\n  AddrOfIndex <- MCAddrOfIndex\n  LEGACY = {}\n'
     c += 'SPECIFICATION Spec\nVIEW View\nPROPERTY StepProp\nINVARIANT C20_State\nCHECK_DEADLOCK FALSE\n'
     return c
 
@@ -76,8 +76,16 @@ def mc_router_cfg(tier):
     c = core.int_consts()
     c += '  AMTS = {1, 2, 3}\n  MAXSTEPS = %d\n  MAXHOPS = %d\n  COMMISSION = 1\n  FOURPAIRS = %s\n' % (
         (2, 4, 'TRUE') if tier == 'thorough' else (2, 3, 'FALSE'))
-    c += '  KeyBytes <- MCKeyBytes\n  AddrOfIndex <- MCAddrOfIndex\n'
+    c += '  KeyBytes <- MCKeyBytes\n  AddrOfIndex <- MCAddrOfIndex\n  LEGACY = {}\n'
     c += 'SPECIFICATION Spec\nVIEW View\nPROPERTY StepProp\nCHECK_DEADLOCK FALSE\n'
+    return c
+
+
+def mc_factory_cfg(tier, legacy='{}'):
+    c = core.int_consts()
+    c += '  MAXSTEPS = %d\n  DefaultL = 2\n  MaxL = 3\n' % (5 if tier == 'thorough' else 4)
+    c += '  KeyBytes <- MCKeyBytes\n  AddrOfIndex <- MCAddrOfIndex\n  LEGACY = %s\n' % legacy
+    c += 'SPECIFICATION Spec\nVIEW View\nPROPERTY StepProp\nINVARIANT StateInv\nCHECK_DEADLOCK FALSE\n'
     return c
 
 
@@ -97,6 +105,8 @@ def run_mc(pid, tier, workdir):
             runs = [('kind=%s' % k, mc_pool_cfg(k, tier)) for k in kinds]
         elif module == 'MC_Router':
             runs = [('3 pairs, routes of 1..3 hops', mc_router_cfg(tier))]
+        elif module == 'MC_Factory':
+            runs = [('registry, byte-sequence identifiers, pages 2/3', mc_factory_cfg(tier))]
         else:
             raise ToolError('unknown model ' + module)
         for what, cfg in runs:
@@ -292,6 +302,104 @@ def replay(path):
     return 1 if fresh else 0
 
 
+def selftest(full):
+    """Show that the binding binds: corrupted or truncated traces of the real code must be rejected, and the
+    models must exhibit the repaired defects when these are switched back on (LEGACY)."""
+    workdir = core.fresh_dir(os.path.join(core.WORK, 'selftest-%d' % os.getpid()))
+    core.build_harness()
+    ok = True
+
+    def expect(name, cond, detail=''):
+        nonlocal ok
+        print('%s selftest %s %s' % ('PASS' if cond else 'FAIL', name, detail))
+        ok = ok and cond
+
+    # ---- a good system-level trace, then four corruptions of it
+    tp = os.path.join(workdir, 'good.ndjson')
+    core.harness(['world', '--driver', 'random', '--seed', '12', '--behaviours', '2', '--steps', '50', '--out', tp])
+    lines = [l for l in open(tp).read().split('\n') if l.strip()]
+    res = core.validate_trace('Trace_World', tp, os.path.join(workdir, 'tv0'), reset_kind='reset', shards=1)
+    viol = [r for r in res['reports'] if r['tag'] == 'VIOL' and not r['known']]
+    devs = [r for r in res['reports'] if r['tag'] == 'DEV']
+    expect('good-trace-accepted', not viol and not devs, '(%d events)' % res['n'])
+    evs = [json.loads(l) for l in lines]
+    swaps = [i for i, e in enumerate(evs) if e['k'] == 'tx' and e['res']['ok'] and any(x.get('action') == 'swap' for x in e['res']['events'])]
+
+    def run_variant(name, mutate, want_props):
+        es = [json.loads(l) for l in lines]
+        es = mutate(es)
+        p = os.path.join(workdir, name + '.ndjson')
+        with open(p, 'w') as f:
+            f.write('\n'.join(json.dumps(e, separators=(',', ':')) for e in es) + '\n')
+        r = core.validate_trace('Trace_World', p, os.path.join(workdir, 'tv_' + name), reset_kind='reset', shards=1)
+        props = sorted(set(x['prop'] for x in r['reports'] if x['tag'] == 'VIOL'))
+        nd = sum(1 for x in r['reports'] if x['tag'] == 'DEV')
+        expect(name, any(p in props for p in want_props) and nd > 0, 'violations=%s deviations=%d' % (props, nd))
+
+    if swaps:
+        i = swaps[len(swaps) // 2]
+
+        def corrupt_balance(es):
+            # one unit appears from nowhere in one recorded balance of the trader
+            e = es[i]
+            caller = e['raw']['caller']
+            for d, accts in e['post']['bank'].items():
+                limbs = accts[caller]
+                accts[caller] = [(limbs[0] + 1) if limbs else 1] + limbs[1:]
+                break
+            return es
+
+        def corrupt_reported(es):
+            for x in es[i]['res']['events']:
+                if x.get('action') == 'swap':
+                    l = x['return_amount']
+                    x['return_amount'] = [(l[0] + 1) if l else 1] + l[1:]
+            return es
+
+        def corrupt_outcome(es):
+            es[i]['res']['ok'] = False
+            es[i]['res']['why'] = 'err:other'
+            es[i]['res']['events'] = []
+            return es
+
+        def drop_event(es):
+            return es[:i] + es[i + 1:]
+
+        run_variant('corrupt-one-balance', corrupt_balance, ['C07', 'C02'])
+        run_variant('corrupt-reported-amount', corrupt_reported, ['C02', 'C06'])
+        run_variant('corrupt-outcome', corrupt_outcome, ['C07'])
+        run_variant('drop-one-event', drop_event, ['C07', 'C02', 'C01', 'C03'])
+    else:
+        expect('good-trace-has-swaps', False)
+
+    # ---- function level: a result off by one unit
+    mp = os.path.join(workdir, 'm.ndjson')
+    core.harness(['math', '--seed', '11', '--n', '60', '--kinds', 'swap,arith', '--out', mp])
+    es = [json.loads(l) for l in open(mp).read().split('\n') if l.strip()]
+    for e in es:
+        if e['k'] == 'arith' and e['r']['ok'] and e['op'] == 'add':
+            v = e['r']['v']
+            e['r']['v'] = [(v[0] ^ 1) if v else 1] + v[1:]
+            break
+    with open(mp, 'w') as f:
+        f.write('\n'.join(json.dumps(e, separators=(',', ':')) for e in es) + '\n')
+    r = core.validate_trace('Trace_Math', mp, os.path.join(workdir, 'tvm'), shards=1)
+    expect('corrupt-arith-result', any(x['prop'] == 'C08' and x['tag'] == 'VIOL' for x in r['reports']))
+
+    if full:
+        # ---- the models see the original defects when they are switched back on
+        for leg, module, cfg in [
+            ('{"R1"}', 'MC_Pool', mc_pool_cfg('CC', 'quick').replace('LEGACY = {}', 'LEGACY = {"R1"}')),
+            ('{"R2"}', 'MC_Factory', mc_factory_cfg('quick', '{"R2"}')),
+            ('{"R3"}', 'MC_Factory', mc_factory_cfg('quick', '{"R3"}')),
+        ]:
+            out = core.run_tlc(module, cfg, os.path.join(workdir, 'leg'), workers=min(core.NCPU, 16), timeout=1800, xss='64m', heap='8g')
+            expect('model-exhibits-defect LEGACY=%s' % leg, 'is violated' in out, module)
+    import shutil
+    shutil.rmtree(workdir, ignore_errors=True)
+    return 0 if ok else 2
+
+
 def main(argv):
     if not argv:
         print(__doc__)
@@ -303,6 +411,8 @@ def main(argv):
     try:
         if argv[0] == 'replay':
             return replay(argv[1])
+        if argv[0] == 'selftest':
+            return selftest('--full' in argv)
         if argv[0] in PROPS:
             return check(argv[0], tier, seed)
         print('unknown property or command: ' + argv[0], file=sys.stderr)
